@@ -347,6 +347,51 @@ pub fn run(ctx: &Ctx) {
     ctx.space(&format!("fixpoint search: {} distinct states, 27 transitions out of each executed on the real store and observed after 0..=3 further ticks, 12 queries per observation", states.len()), states.len() as u64 * 109, "complete (fixpoint reached)");
     ctx.sample(json!({"kind": "history", "history": states[states.len() / 2].1}));
     ctx.sample(json!({"kind": "history", "history": [Op::AddCached(1, 2, false), Op::Tick, Op::AddCached(1, 2, false), Op::Tick]}));
+    // long repetitive histories: (a b)^k and (a b Tick)^k for every ordered pair of operations, far
+    // deeper than the fixpoint's shortest paths (state that only builds up over many steps)
+    {
+        let n = all.len();
+        let pairs: Vec<(usize, usize)> = (0..n).flat_map(|a| (0..n).map(move |b| (a, b))).collect();
+        let total = std::sync::atomic::AtomicU64::new(0);
+        let pch: Vec<&[(usize, usize)]> = pairs.chunks(16).collect();
+        par_shards(ctx, &pch, |ps, t: &mut Tally| {
+            let w = world();
+            let mut cnt = 0u64;
+            for (a, b) in ps.iter() {
+                for k in [3usize, 6, 11, 20] {
+                    for with_tick in [false, true] {
+                        let mut h = Vec::new();
+                        let mut ticks = 0;
+                        for i in 0..k {
+                            h.push(all_ref[*a]);
+                            h.push(all_ref[*b]);
+                            if with_tick && i % 3 == 2 && ticks < 6 {
+                                h.push(Op::Tick);
+                                ticks += 1;
+                            }
+                        }
+                        t.evals += 1;
+                        t.transitions += 2;
+                        t.nontrivial += 1;
+                        cnt += 1;
+                        let f = check_history(&w, &h, false);
+                        if !f.is_empty() {
+                            t.outcome("long-history-bad");
+                            ctx.violations(f);
+                        }
+                        h.push(Op::Tick);
+                        let f = check_history(&w, &h, false);
+                        if !f.is_empty() {
+                            t.outcome("long-history-bad");
+                            ctx.violations(f);
+                        }
+                    }
+                }
+            }
+            total.fetch_add(cnt, std::sync::atomic::Ordering::Relaxed);
+        });
+        ctx.space("long histories: (a b)^k for every ordered pair of the 27 operations, k in {3,6,11,20}, with and without interleaved ticks, observed at the end and one tick later", total.load(std::sync::atomic::Ordering::Relaxed), "complete");
+    }
     if thorough {
         // every history of length <= 5, no deduplication
         let n = all.len();
